@@ -109,3 +109,91 @@ def SELF_PARAM(body, ctx):
     only in its parameter names and types (the real signature is kept in the evidence)."""
     new, n = _ident_replace(body, 'self', 'self_')
     return new, max(n, 1)
+
+
+def _closure_at(body, start, mask):
+    """body[start] == '|': parse `|IDENT| EXPR` up to the `)` that closes the enclosing call.
+    Returns (ident, expr_text, index_of_closing_paren)."""
+    m = re.match(r'\|\s*(%s)\s*\|' % IDENT, body[start:])
+    if not m:
+        raise LostAnchor('closure with a non-identifier pattern')
+    # the enclosing `(` is the char before `start` (modulo spaces)
+    k = start - 1
+    while k >= 0 and body[k] in ' \t\n':
+        k -= 1
+    if body[k] != '(':
+        raise LostAnchor('closure is not a call argument')
+    pc = match_close(body, k, mask)
+    return m.group(1), body[start + m.end():pc].strip(), pc
+
+
+def R11_iter_any_all(body, ctx):
+    """`X.iter().filter(|A| F).any(|B| G)`, `.. .all(|B| G)`, `X.iter().any(|B| G)`, `X.iter().all(|B| G)`
+    -> an explicit short-circuiting index loop over `iter_seq(X)` (prelude trait IterSeq: the
+    elements in iteration order), which is what the std adapters are documented to do:
+    { let it_ = iter_seq(X); let mut r_ = INIT; let mut i_ = 0;
+      while i_ < it_.len() { let A = &it_[i_]; let f_ = F; let B = it_[i_]; i_ += 1; if f_ { if [!]G { r_ = !INIT; break; } } } r_ }
+    X, F and G are re-emitted unchanged."""
+    n = 0
+    rx = re.compile(r'\.iter\(\)\s*(\.filter\(\s*)?')
+    while True:
+        mask = code_mask(body)
+        hit = None
+        for m in rx.finditer(body):
+            if not mask[m.start()]:
+                continue
+            pos = m.end()
+            filt = None
+            if m.group(1):
+                a, f, pc = _closure_at(body, pos, mask)
+                filt = (a, f)
+                pos = pc + 1
+            m2 = re.match(r'\s*\.(any|all)\(\s*', body[pos:])
+            if not m2:
+                continue
+            b, g, pc2 = _closure_at(body, pos + m2.end(), mask)
+            # receiver: scan back from m.start() over a postfix expression (identifiers, `.`, calls, indexes)
+            k = m.start()
+            while k > 0 and body[k - 1] in ' \t\n':
+                k -= 1
+            recv_end = k
+            while k > 0:
+                c = body[k - 1]
+                if c.isalnum() or c in '_.':
+                    k -= 1
+                elif c in ')]':
+                    # find matching open
+                    depth, j = 0, k - 1
+                    while j >= 0:
+                        if mask[j] and body[j] in ')]':
+                            depth += 1
+                        elif mask[j] and body[j] in '([':
+                            depth -= 1
+                            if depth == 0:
+                                break
+                        j -= 1
+                    k = j
+                else:
+                    break
+            recv = body[k:recv_end].strip()
+            if not recv:
+                continue
+            hit = (k, pc2 + 1, recv, filt, m2.group(1), b, g)
+            break
+        if not hit:
+            break
+        k, end, recv, filt, kind, b, g = hit
+        init = 'false' if kind == 'any' else 'true'
+        cond = g if kind == 'any' else '!(%s)' % g
+        inner = 'if %s { r_ = %s; break; }' % (cond, 'true' if kind == 'any' else 'false')
+        binds = 'let %s = it_[i_];' % b
+        if filt:
+            # the filter closure sees `&&T`, the consumer closure `&T`; the filter test is evaluated
+            # before the consumer's binding (the two closures may use the same parameter name)
+            binds = 'let %s = &it_[i_]; let f_ = %s; ' % filt + binds
+            inner = 'if f_ { %s }' % inner
+        loop = ('{ let it_ = iter_seq(%s); let mut r_ = %s; let mut i_: usize = 0;\n'
+                '            while i_ < it_.len() { %s i_ += 1; %s }\n            r_ }' % (recv, init, binds, inner))
+        body = body[:k] + loop + body[end:]
+        n += 1
+    return body, n
